@@ -165,6 +165,7 @@ def verification_scp(asce, ctx, msg):
 
     rsp = dimsemessages.CEchoRSPMessage()
     rsp.message_id_being_responded_to = msg.message_id
+    rsp.sop_class_uid = msg.sop_class_uid
     rsp.status = int(status)
     asce.send(rsp, ctx.id)
 
